@@ -315,6 +315,11 @@ func TestC26(t *testing.T) {
 	}
 
 	if env.Replay != "" {
+		var probe c26WatchersCase
+		if err := vkit.ReadReplay(env.Replay, &probe); err == nil && probe.RevokeWait > 0 {
+			c26Watchers(t, env, rec) // the scenario is re-run as a whole (its rounds are drawn from the seed)
+			return
+		}
 		var c c26Case
 		if err := vkit.ReadReplay(env.Replay, &c); err != nil {
 			t.Fatal(err)
@@ -350,4 +355,8 @@ func TestC26(t *testing.T) {
 		}()
 	}
 	wg.Wait()
+	if env.Batch == 0 {
+		// the consumer of the registration: two real node-status watchers (watchers_test.go)
+		c26Watchers(t, env, rec)
+	}
 }
